@@ -31,6 +31,9 @@ func (p *PcClient) GetRemoteProcessesState() (*types.ProcessesState, error) {
 		return nil, err
 	}
 	defer resp.Body.Close()
+	if resp.StatusCode != http.StatusOK {
+		return nil, responseError(resp)
+	}
 	//Create a variable of the same type as our model
 	var sResp types.ProcessesState
 
@@ -75,6 +78,9 @@ func (p *PcClient) getProcessInfo(name string) (*types.ProcessConfig, error) {
 		return nil, err
 	}
 	defer resp.Body.Close()
+	if resp.StatusCode != http.StatusOK {
+		return nil, responseError(resp)
+	}
 	var sResp types.ProcessConfig
 
 	//Decode the data
@@ -93,6 +99,9 @@ func (p *PcClient) getProcessPorts(name string) (*types.ProcessPorts, error) {
 		return nil, err
 	}
 	defer resp.Body.Close()
+	if resp.StatusCode != http.StatusOK {
+		return nil, responseError(resp)
+	}
 	var sResp types.ProcessPorts
 
 	//Decode the data
@@ -102,6 +111,15 @@ func (p *PcClient) getProcessPorts(name string) (*types.ProcessPorts, error) {
 	}
 
 	return &sResp, nil
+}
+
+// responseError turns an error response of the server into an error
+func responseError(resp *http.Response) error {
+	var respErr pcError
+	if err := json.NewDecoder(resp.Body).Decode(&respErr); err != nil || respErr.Error == "" {
+		return fmt.Errorf("unexpected status code: %s", resp.Status)
+	}
+	return errors.New(respErr.Error)
 }
 
 func (p *PcClient) updateProcess(procInfo *types.ProcessConfig) error {
